@@ -64,6 +64,7 @@ func c12Cases(tier string, seed int64) []core.Case {
 		dotu := dotu
 		cases = append(cases, core.Case{ID: fmt.Sprintf("ufs/dotu=%v", dotu), Run: func(ctx *core.Ctx) core.Result { return c12Ufs(ctx, dotu) }})
 	}
+	cases = append(cases, core.Case{ID: "ufs/server-dotu/plain-client", Run: func(ctx *core.Ctx) core.Result { return c12Ufs(ctx, true, false) }})
 	for _, f := range ExtraC12 {
 		cases = append(cases, f(tier, seed)...)
 	}
@@ -501,13 +502,18 @@ func sclass(sz, msize uint32) string {
 }
 
 // c12Ufs: real stat replies and directory reads from the Unix file server under small msize values.
-func c12Ufs(ctx *core.Ctx, dotu bool) core.Result {
+func c12Ufs(ctx *core.Ctx, sdotu bool, cdotu ...bool) core.Result {
 	var res core.Result
-	h := newHostile(ctx, &res, "ufs", dotu)
+	h := newHostile(ctx, &res, "ufs", sdotu)
 	if h == nil {
 		return res
 	}
 	defer h.done()
+	// the dialect of the session is what was negotiated: .u only if the server offers it and the client asked for it
+	dotu := sdotu
+	if len(cdotu) > 0 {
+		dotu = sdotu && cdotu[0]
+	}
 	ver := "9P2000"
 	if dotu {
 		ver = "9P2000.u"
@@ -562,11 +568,22 @@ func c12Ufs(ctx *core.Ctx, dotu bool) core.Result {
 		send("walkdir", &wire.Msg{Type: wire.Twalk, Fid: 0, Newfid: 3, Wname: []string{"listing"}})
 		send("opendir", &wire.Msg{Type: wire.Topen, Fid: 3, Mode: 0})
 		if msize > 24 {
-			send("readdir", &wire.Msg{Type: wire.Tread, Fid: 3, Offset: 0, Count: msize - 24})
+			if rd := send("readdir", &wire.Msg{Type: wire.Tread, Fid: 3, Offset: 0, Count: msize - 24}); rd != nil && rd.Type == wire.Rread {
+				// the stat records inside a directory read are in the negotiated dialect too
+				for b := rd.Data; len(b) > 0; {
+					_, used, err := wire.DecodeStat(b, dotu)
+					if err != nil {
+						res.Violate("C12;ufs;wrong-dialect;readdir-record", fmt.Sprintf("Ufs (server .u=%v, session .u=%v, msize %d): a stat record inside a directory read does not decode in the negotiated dialect: %v", sdotu, dotu, msize, err), nil)
+						break
+					}
+					b = b[used:]
+					res.Count("directory_records_decoded_in_negotiated_dialect", 1)
+				}
+			}
 		}
 		send("open-missing-mode", &wire.Msg{Type: wire.Topen, Fid: 0, Mode: 1})
 		c.Hangup()
 	}
-	res.Sample(map[string]interface{}{"server": "ufs", "dotu": dotu, "msizes": "24..8192"})
+	res.Sample(map[string]interface{}{"server": "ufs", "server_dotu": sdotu, "session_dotu": dotu, "msizes": "24..8192"})
 	return res
 }
